@@ -154,7 +154,8 @@ inductive Event
   | cancelled (t id : Nat) (h : Nat)
   | dropped (t id : Nat) (h : Nat)
   | filled (t id : Nat) (owner : Str) (h : Nat)
-  | paid (t id : Nat) (holder : Holder) (denom : Str) (amt : Nat)
+  | paid (t id : Nat) (holder : Holder) (denom : Str) (amt : Nat)      -- transfer out of the treasury
+  | minted (t id : Nat) (holder : Holder) (denom : Str) (amt : Nat)    -- mint by the tenant's contract (treasury untouched)
   | deposited (t : Nat) (denom : Str) (amt : Nat)
 deriving DecidableEq, Repr
 
